@@ -163,10 +163,20 @@ def run_once(sc, close_step=None):
         merging = rec["merging"] = [0]
         orig_merge = client._merge_topic_metadata
 
+        late_merges = rec["late_merges"] = []
+
         def merge_spy(*a, **kw):
             merging[0] += 1
+            m = None
+            if rec["close"] is not None:
+                # a response merged into the client after close(): which brokers did it name, did the merge go through
+                m = dict(t=w.clock.seconds(), n_brokers=len(list(a[0])) if a else -1, ok=False)
+                late_merges.append(m)
             try:
-                return orig_merge(*a, **kw)
+                r = orig_merge(*a, **kw)
+                if m is not None:
+                    m["ok"] = True
+                return r
             finally:
                 merging[0] -= 1
         client._merge_topic_metadata = merge_spy
@@ -370,6 +380,18 @@ def classify_state(c):
 KNOWN_MECH = "bootstrap-path-ignores-close"
 
 
+def late_suffix(rec, op=None, which=()):
+    """The listed finding's history: a bootstrap reply that arrives after close() is handled as if nothing had
+    happened, and what stops it from being merged is an accident (a reply that names brokers trips over the broker
+    table close() removed).  A late reply that names brokers and is merged all the same, or a coordinator lookup that
+    succeeds after close(), or a group map that is left filled, is a different history."""
+    if any(m["ok"] and m["n_brokers"] > 0 for m in rec.get("late_merges", ())):
+        return "/late-reply-naming-brokers-was-merged"
+    if op is not None and op["kind"] in ("coordinator", "offset_commit", "offset_fetch"):
+        return "/late-coordinator-reply-accepted"
+    return ""
+
+
 def check(res, rec):
     sc = rec["sc"]
     w = rec["w"]
@@ -404,7 +426,8 @@ def check(res, rec):
             # (close() re-entered from a sibling callback) was not "in progress" any more
             if o.get("fire_step", 0) > c["step"] and o["kind"] not in ("produce0",):
                 res.violate("pending-succeeded-at-close/%s" % (
-                    REENTRANT if c["in_merge"] else KNOWN_MECH if boot else state + "/" + o["kind"]),
+                    REENTRANT if c["in_merge"] else KNOWN_MECH + late_suffix(rec, o) if boot
+                    else state + "/" + o["kind"]),
                             "an operation pending at close() completed successfully after close()", kind=o["kind"],
                             fire=o["fires"][0])
         res.ob("pending_failed_at_once")
@@ -459,7 +482,8 @@ def check(res, rec):
         if snap and any(snap):
             which = [n for n, d in zip(("topic_partitions", "topics_to_brokers", "topic_errors", "group map"), snap)
                      if d]
-            mech = REENTRANT if c["in_merge"] else KNOWN_MECH if (boot and name == "at-the-end") else "+".join(which)
+            mech = (REENTRANT if c["in_merge"] else KNOWN_MECH + late_suffix(rec, None, which)
+                    if (boot and name == "at-the-end") else "+".join(which))
             res.violate("metadata-not-cleared/%s/%s" % (name, mech), "cached metadata is not empty %s" % name,
                         which=which)
         res.ob("metadata_cleared")
